@@ -301,14 +301,21 @@ class TracedLock(object):
 
 class Watchdog(object):
     """run `fn` in a fresh thread and wait at most `timeout` seconds: `Watchdog.run(fn, 2.0)` ->
-    ('ok', result) | ('raised', exception) | ('blocked', None).  A blocked thread is left behind as a daemon."""
+    ('ok', result) | ('raised', exception) | ('blocked', None).  A blocked thread is left behind as a daemon.
+    `slow_ok`: optional callable; when the deadline passes and `slow_ok()` is true (e.g. `lambda: not tr.lock_waits`:
+    no thread is waiting for a provider lock, the machine is just slow) the thread gets `grace` more seconds."""
     @staticmethod
-    def run(fn, timeout=2.0, name='watchdog-session'):
+    def run(fn, timeout=2.0, name='watchdog-session', slow_ok=None, grace=30.0):
         box = {}
         def target():
             try: box['r'] = ('ok', fn())
             except BaseException as e: box['r'] = ('raised', e)
         t = threading.Thread(target=target, name=name, daemon=True)
         t.start(); t.join(timeout)
+        if t.is_alive() and slow_ok is not None:
+            import time
+            end = time.time() + grace
+            while t.is_alive() and time.time() < end and slow_ok(): t.join(0.2)
+            if t.is_alive(): t.join(timeout)
         if t.is_alive(): return ('blocked', None)
         return box['r']
